@@ -53,5 +53,7 @@ fn main() {
         "C05" => c05,
         "C06" => c06,
         "C07" => c07,
+        "C08" => c08,
+        "C11" => c11,
     );
 }
